@@ -138,6 +138,7 @@ func (h *harness) prepare(c Case) *prepared {
 		h.run.Count("real:" + c.Mode + ":rejected")
 	}
 	_, lines := refPositions(string(src), nil)
+	excused := false // rejected for depth, and deep enough for that to be legitimate
 	if c.Mode == "doc" {
 		inGrammar := recognise(sc.Toks) && sc.ScannerErrsTotal == 0
 		if r.Accept {
@@ -159,8 +160,17 @@ func (h *harness) prepare(c Case) *prepared {
 					p.fail = &failure{"property", "error-location", fmt.Sprintf("error %q located at %d:%d, the text has %d lines", e.Message, e.Location.Line, e.Location.Column, lines)}
 				}
 			}
+			// the documented depth limit excuses the rejection of a grammatical text only if the text
+			// is really deeply nested: production depth ≤ 4·(bracket nesting) + 24 (Lean: pd… are
+			// maxima over siblings, a selection level costs 4 productions, the constant covers the
+			// chain document → field → directive → argument → value)
+			nest := tokNest(sc.Toks)
+			excused = depth && 4*nest+24 > h.maxRec
+			if inGrammar && depth && !excused && p.fail == nil {
+				p.fail = &failure{"property", "depth-on-shallow", fmt.Sprintf("a text of the grammar with %d tokens and bracket nesting %d is refused with %q: %s", len(sc.Toks), nest, depthMsg, clip(r.Obs))}
+			}
 			if inGrammar && !depth && p.fail == nil {
-				p.fail = &failure{"property", "reject-inside", fmt.Sprintf("a text of the grammar is rejected: %s", r.Obs)}
+				p.fail = &failure{"property", "reject-inside", fmt.Sprintf("a text of the grammar is rejected: %s", clip(r.Obs))}
 			}
 		}
 	} else if r.Accept {
@@ -168,13 +178,33 @@ func (h *harness) prepare(c Case) *prepared {
 			p.fail = &failure{"property", "accept-outside", "ParseValue accepts a text that does not start with a Value"}
 		}
 	}
-	if c.Expected != "" && p.fail == nil {
+	if c.Expected != "" && p.fail == nil && !excused {
 		want := "(ret " + c.Expected + " ())"
 		if r.Obs != want {
 			p.fail = &failure{"property", "print-parse", fmt.Sprintf("printed tree does not parse back to itself with reference positions:\n got  %s\n want %s", clip(r.Obs), clip(want))}
 		}
 	}
 	return p
+}
+
+// tokNest: the maximal nesting of brackets in a token stream.
+func tokNest(ts []pk.Tok) int {
+	d, max := 0, 0
+	for _, t := range ts {
+		if t.Kind != 'p' {
+			continue
+		}
+		switch t.Value {
+		case "{", "[", "(":
+			d++
+			if d > max {
+				max = d
+			}
+		case "}", "]", ")":
+			d--
+		}
+	}
+	return max
 }
 
 func clip(s string) string {
@@ -534,6 +564,23 @@ func main() {
 				run.Sample(gc.build())
 			}
 		}
+	}
+	// (D2) large but shallow trees (and large trees followed by nesting): the round trip and the
+	// correspondence with the model (which carries the recursion counter) must not depend on size
+	b.flush()
+	nLarge := run.Scale(14, 60)
+	for i := 0; i < nLarge; i++ {
+		r := run.Rand.Fork()
+		kind := i % len(largeKinds)
+		n := hx.Pick(r, []int{1100, 2500, 6000, 20000})
+		if i >= len(largeKinds) && !run.Thorough() {
+			n = hx.Pick(r, []int{1100, 2500})
+		}
+		tail := hx.Pick(r, []int{0, 0, 60, 150, 240})
+		t := largeTree(largeKinds[kind], n, tail, r)
+		run.Count("large:" + largeKinds[kind])
+		b.add(&genCase{mode: "doc", tree: t, seed: r.Uint64(), class: r.Intn(layClasses), stream: "large-doc"})
+		b.flush()
 	}
 	// (E) token-level mutants of printed documents
 	nMut := run.Scale(6000, 150000)
